@@ -122,6 +122,9 @@ def generate(seed, run, tier):
             i = rf.choice(steps)
             out[i] = dict(out[i])
             out[i].setdefault('mid', [])
+            at = Stream(seed, ID, run, 'interrupt_point', j).wchoice([('mid', 6), ('pre_backward', 3), ('pre_forward', 1)])
+            if at != 'mid':
+                ob['at'] = at
             out[i]['mid'] = out[i]['mid'] + [ob]
             continue
         ob['inject'] = True
